@@ -104,9 +104,12 @@ CLAIMED["C01"] = dict(
          "tol*2^-w row by row, |grad f + J^T y + d|_j <= tol*2^(v_j - o), y_i zero to tol*2^(w_i - o) away from the slack "
          "bounds and of the right sign at them, d_j zero away from bounds and of the documented sign at them; and the loop "
          "returns Optimal only with total_res <= opt_tol, for every oracle trace; C01_end_to_end composes both with the box "
-         "invariant into one statement about what solve() hands back. Partial: float rounding of the residual; the "
-         "flow-integration solver is not covered by the theorems (its Optimal results are checked by the KKT oracle in a "
-         "small campaign; the round-0 observation F9 about it was not reproduced).",
+         "invariant into one statement about what solve() hands back. Flow-integration solver: its optimality measure "
+         "(RestrictedFlow.residuum, model Flow.v, unit flow) bounds total_res for every problem, point in the box and "
+         "multiplier (C01_integration_residuum_bounds_total_res), so the theorems about total_res apply to its Optimal; the "
+         "measure the pinned tree used does not (witness by vm_compute = defect F18, repaired in /repo by 3884e54). "
+         "Partial: float rounding of the residual; the integration itself (solve_ivp, events, filter switching) and the "
+         "integration solver's other statuses are outside the theorems and only searched by a campaign.",
     note=BASE_NOTE + "Exact arithmetic over Q; ldexp modelled as multiplication by 2^k; NaN-free comparisons.",
     technique="Coq proof: scalar KKT lemmas lifted through the slack embedding and the power-of-two scaling (lra/nra over Q) "
               "+ loop induction; vm_compute differential correspondence (transform, iterate, loop units)",
